@@ -11,6 +11,7 @@ import BufrModel.Drv.CoderOp
 import BufrModel.Drv.ScriptOp
 import BufrModel.Drv.SectionsOp
 import BufrModel.Drv.SubsetOp
+import BufrModel.Drv.FlatOp
 open Lean Bufr.Drv
 
 /-- stateless operations: one line per op -/
@@ -34,6 +35,7 @@ def statefulOps : List (String × (DrvState → Json → J (DrvState × Json))) 
   ("dec-data", opDecData) ::
   ("enc-data", opEncData) ::
   ("gen-data", opGenData) ::
+  ("dec-data-flat", opDecDataFlat) ::
   []
 
 def dispatch (st : DrvState) (j : Json) : J (DrvState × Json) := do
